@@ -312,6 +312,46 @@ theorem sync_createLoop {d : Data} (h : Sync d) (upd : Bool) (ps : List (Str × 
         | none => exact ih hs true
         | some e => exact hs
 
+/-- `list.insert` puts the element somewhere and keeps everything else in order -/
+theorem pyInsert_perm (l : List Str) (i : Int) (x : Str) : (pyInsert l i x).Perm (x :: l) := by
+  unfold pyInsert
+  simp only
+  generalize (if i < 0 then (if i + (l.length : Int) < 0 then 0 else (i + l.length).toNat)
+    else (if i.toNat > l.length then l.length else i.toNat)) = n
+  have h := List.perm_middle (a := x) (l₁ := l.take n) (l₂ := l.drop n)
+  rwa [List.take_append_drop] at h
+
+theorem mem_pyInsert {l : List Str} {i : Int} {x j : Str} : j ∈ pyInsert l i x ↔ j = x ∨ j ∈ l := by
+  rw [(pyInsert_perm l i x).mem_iff]; simp
+
+theorem sync_insert {d : Data} (h : Sync d) {k : Str} (v : Val) (i : Int)
+    (hn : lookup d.raw k = none) (hp : identPub k = true) :
+    Sync ⟨rawSet d.raw k v, pyInsert d.keys i k⟩ := by
+  have hnk : k ∉ d.keys := by
+    intro hm; have := h.keysInRaw k hm; rw [hn] at this; simp at this
+  refine ⟨rawNodup_rawSet h.rawNodup k v, ?_, ?_, ?_, ?_⟩
+  · rw [(pyInsert_perm d.keys i k).nodup_iff, List.nodup_cons]
+    exact ⟨hnk, h.keysNodup⟩
+  · intro j hj
+    simp only [lookup_rawSet]
+    split
+    · rfl
+    · next hne =>
+      rcases mem_pyInsert.mp hj with e | e
+      · exact absurd e.symm hne
+      · exact h.keysInRaw j e
+  · intro j hj
+    simp only [lookup_rawSet] at hj
+    split at hj
+    · next e => exact Or.inl (mem_pyInsert.mpr (Or.inl e.symm))
+    · rcases h.rawInKeys j hj with h1 | h1
+      · exact Or.inl (mem_pyInsert.mpr (Or.inr h1))
+      · exact Or.inr h1
+  · intro j hj
+    rcases mem_pyInsert.mp hj with e | e
+    · subst e; exact hp
+    · exact h.keysPublic j e
+
 /-- every operation preserves the invariant -/
 theorem sync_step {w : World} (h : Sync w.data) (op : Op) : Sync (step w op).1.data := by
   cases op with
@@ -371,6 +411,19 @@ theorem sync_step {w : World} (h : Sync w.data) (op : Op) : Sync (step w op).1.d
         | none => simp only; split <;> exact hs
         | some e => exact hs
   | clear => exact sync_empty
+  | insert idx k v =>
+    simp only [step]
+    split
+    · exact h
+    · next hp =>
+      split
+      · exact h
+      · next hl =>
+        apply sync_insert h v idx
+        · cases hx : lookup w.data.raw k with
+          | none => rfl
+          | some x => rw [hx] at hl; simp at hl
+        · simpa using hp
   | push v => exact h
   | pull => simp only [step]; split <;> exact h
   | gulp v => simp only [step]; split <;> exact h
@@ -840,6 +893,17 @@ theorem rawPublic_step {w : World} (hs : Sync w.data) (h : RawPublic w.data) (op
         | none => simp only; split <;> exact h1
         | some e => exact h1
   | clear => intro j hj; simp [step, lookup] at hj
+  | insert idx k v =>
+    simp only [step]
+    split
+    · exact h
+    · split
+      · exact h
+      · intro j hj
+        simp only [lookup_rawSet] at hj
+        split at hj
+        · next e => exact mem_pyInsert.mpr (Or.inl e.symm)
+        · exact mem_pyInsert.mpr (Or.inr (h j hj))
   | push v => exact h
   | pull => simp only [step]; split <;> exact h
   | gulp v => simp only [step]; split <;> exact h
@@ -909,6 +973,11 @@ theorem step_deck (w : World) (op : Op) :
       · split <;> rfl
       · rfl
   | clear => rfl
+  | insert idx k v =>
+    simp only [step]
+    split
+    · rfl
+    · split <;> rfl
   | push v => rfl
   | pull => simp only [step]; split <;> simp_all
   | gulp v => simp only [step]; split <;> simp_all
